@@ -1,9 +1,11 @@
 CFG = {
     "jobs": lambda tier: [
         J("scaled", "c02-comp --aspect C02", imports="Base Stream Inst Run RunFsComp", shard=20),
-        J("scaled", "c02"),
+        J("scaled", "c02", imports="Base Stream Inst Run RunHdr"),
+        J("scaled", "c02-small", imports="Base Stream Inst Run RunHdr"),
+        J("prod", "c02-small", imports="Base Stream Inst Run RunHdr"),
     ],
-    "run_modules": ["RunFsComp"],
+    "run_modules": ["RunFsComp", "RunHdr"],
     "rule": "scaled constants (CACHE=512, CHUNK=64, BLOCK=256): generated archives (1-4 interleaved files, pieces of boundary sizes, "
             "4 layer combinations); EVERY cut point of the layer-less and encrypted archives in quick (every byte: inside the header, "
             "a block tag, an id, a name, a content, a hash, between blocks, inside the footer) and a stride for compressed ones; "
@@ -31,3 +33,15 @@ CFG = {
 # work package fscomp: the fail-safe decompression reader (appended to the texts above)
 CFG["rule"] += "; " + CFG.pop("rule_fscomp")
 CFG["explanation"] += " || " + CFG.pop("explanation_fscomp")
+
+# work package hdrsrc: the header is part of the model-compared input
+CFG["rule"] += ("; job c02 hands the model the archive prefix INCLUDING the header (RunHdr.repair_archive_kn / every 16th case repair_archive "
+                "with the model's own ECIES unwrap in oracle mode for X25519): cuts inside the magic, the version, the persistent configuration and "
+                "the key-wrap table are model-compared rows; c02-small (scaled AND production constants): 2 (quick) / 6 (thorough) tiny archives x "
+                "layers {none, ENCRYPT} (one short chunk), ~16 cuts each (header, block edges, inside the chunk, inside its tag, footer, intact), "
+                "both modes, from memory and through a 3-byte-per-read source, all model-compared")
+CFG["explanation"] = CFG.get("explanation", "") + (" || whole archive (props/C02.v C02_archive_cut_sound, theories/ArchiveSrcRepair.v): for every cut of "
+                "header ++ body (layers none / ENCRYPT) and any source refining a cursor over the prefix, ArchiveFailSafeReader::from_config + "
+                "convert_to_archive (ArchiveSrc.failsafe_repair: streamed header read, load_config, fail-safe stack over the SAME source, repair) "
+                "returns UnexpectedEof (cut < 7), DeserializationError (cut inside the configuration) or the result C02_repair_cut_sound / "
+                "C02_repair_encrypted_cut_sound describe (or an exhibited tag collision on a wrapped key)")
